@@ -638,7 +638,7 @@ def run_jobs(jobs):
 # ------------------------------------------------------------------------------ judging (T)
 def judge(records):
     """TLC evaluates CodecTrace on the records. Returns (bad, applied, res)."""
-    bad, res = trace.validate("CodecTrace", records)
+    bad, res = trace.validate("CodecTrace", records, max_lines=10 ** 9)  # one run: the spec prints its APPLIED totals at the end
     ap = printed_json(res, "APPLIED")
     applied = ap[-1] if ap else {}
     return bad, applied, res
